@@ -18,8 +18,10 @@ def signature(msg, case_lines):
         return "illegal_vhdl:other"
     if what in ("check_mismatch_metavalue", "check_mismatch_uninitialised") and flag("tri") == "2":
         return "tristate:released_pin_recorded_as_X"
-    if what == "check_mismatch_metavalue" and flag("undef") == "1":
-        return "xprop:metavalue_where_reference_defined:undefined_stimulus"
+    if what == "check_mismatch_metavalue" and (flag("undef") == "1" or flag("rundef") == "1"):
+        # the reference run itself contained undefined values (undefined stimuli, multiplexer without an input for its selector value,
+        # uninitialised memory ...): the exported VHDL is more pessimistic about them than the reference simulator
+        return "xprop:metavalue_where_reference_defined"
     if what == "check_mismatch_uninitialised":
         return "power_on_value_missing:U_where_reference_defined"
     return "what:" + what + (":undefined_stimulus" if flag("undef") == "1" else "")
